@@ -16,6 +16,10 @@ def _drop_test_mods(stripped):
         stripped = stripped[:m.start()] + stripped[j:]
 
 
+def norm(t):
+    return " ".join(t.split())
+
+
 def _reader_kind(call, helpers):
     """Classify the bulk reader named in `call`: the beve primitive, or the crate helper that also
     accepts serde's empty vector."""
@@ -185,7 +189,6 @@ def extract():
     facts["emptyGeneric"] = bool(readers) and all(r == "empty_ok" for r in readers)
 
     # ---- the two route handlers: decode through the gate, call the closure once, frame with the bulk builder
-    def norm(t): return " ".join(t.split())
     want = {
         ("TypedSliceHandler", "handle"): "let input: Vec<T> = match decode_typed_slice_param(req)? { Ok(v) => v, Err(err) => return Ok(err), }; match (self.0)(input) { Ok(out) => Ok(create_typed_slice_response_unstamped(req, &out)), Err((code, msg)) => Ok(create_error_response_like(req, code, msg)), }",
         ("TypedSliceHandler", "handle_view"): "let input: Vec<T> = match decode_typed_slice_param_view(view)? { Ok(v) => v, Err(err) => return Ok(err), }; match (self.0)(input) { Ok(out) => Ok(create_typed_slice_response_unstamped_view(view, &out)), Err((code, msg)) => Ok(create_error_response_unstamped_view(view, code, msg)), }",
@@ -198,6 +201,24 @@ def extract():
         got = re.sub(r'"\s*"', '" "', got)
         if got != shape:
             unrec.append(f"{ty}::{fn}")
+
+    # ---- the streaming writers: format stamped, closed-form length, the beve writer handed the sink itself
+    io = _drop_test_mods(strip(read("src/io.rs")))
+    for fn, size_fn, wr in (("write_message_typed_slice", "typed_slice_size", "to_writer_typed_slice"),
+                            ("write_message_complex_slice", "complex_slice_size", "to_writer_complex_slice")):
+        b = norm(fn_body(io, fn))
+        shape = (r"header\.body_format = (crate::constants::)?BodyFormat::Beve as u16; "
+                 r"let body_len(: u64)? = beve::" + size_fn + r"\(slice\); "
+                 r"write_message_streaming\(w, header, query, body_len, \|w\| (\{ )?beve::" + wr + r"\(w, slice\)( \})?\)")
+        if not re.fullmatch(shape, b):
+            unrec.append(fn)
+    b = norm(fn_body(io, "write_message_streaming"))
+    shape = (r"header\.query_length = query\.len\(\) as u64; header\.body_length = body_len; "
+             r"header\.length = \(HEADER_SIZE as u64\) \+ header\.query_length \+ body_len; "
+             r"w\.write_all\(&header\.encode\(\)\)\?; if !query\.is_empty\(\) \{ w\.write_all\(query\)\?; \} "
+             r"body_writer\(w\)\.map_err\(Into::into\)\?; Ok\(\(\)\)")
+    if not re.fullmatch(shape, b):
+        unrec.append("write_message_streaming")
 
     # ---- base offset of the aligned body
     bi = impl_block(msg, r"impl MessageBuilder\s*\{")
